@@ -3,7 +3,8 @@
    4 digit strings; 5 integers; 6 the first word; 7 digit generation error bounds; 8 reading %e / %f;
    9 the scientific and fixed branches of _format_float; 10 str.strip, the scanner's alphabet;
    11 float(): flog2, nearest double, 17 digits round-trip; 12 reading %g; 13 the float theorem;
-   14 integer / converted nodes, int(round()), the precision loop; 15 reachable formatters.
+   14 integer / converted nodes, int(round()), the precision loop; 15 reachable formatters;
+   16 the digit generation never runs out of fuel on a double; 17 format() never raises on a double.
    No axioms, no admits. *)
 From Coq Require Import List String Ascii ZArith QArith Qabs Qpower Bool Lia Lqa.
 From MPV Require Import Model.Wire Model.Num.
@@ -2402,3 +2403,562 @@ Qed.
 
 Lemma default_fmt_ok : fmt_ok default_fmt.
 Proof. unfold fmt_ok. cbn. split; [reflexivity|]. split; [right; left; reflexivity | lia]. Qed.
+
+(* ------------------------------------------------------------------------------------------ *)
+(* 16. the digit generation never runs out of fuel on a double *)
+
+(* a^x <= b^y for integer exponents of either sign, decided on integers *)
+Definition pow_le (a x b y : Z) : bool :=
+  a ^ Z.max x 0 * b ^ Z.max (- y) 0 <=? b ^ Z.max y 0 * a ^ Z.max (- x) 0.
+
+(* the log10 estimate of the model, est = floor(lg * 0.30103), is within one of the truth *)
+Definition e10_ok (lg : Z) : bool :=
+  let e := (lg * 30103) / 100000 in
+  andb (pow_le 10 (e - 1) 2 lg) (pow_le 2 (lg + 1) 10 (e + 2)).
+
+Definition lg_range : list Z := map (fun i => Z.of_nat i - 1075) (seq 0 2100).
+
+(* a genuinely finite sweep: the 2100 binary exponents a finite double can have *)
+Lemma e10_sweep : forallb e10_ok lg_range = true.
+Proof. vm_compute. reflexivity. Qed.
+
+Lemma e10_ok_range : forall lg, -1075 <= lg <= 1024 -> e10_ok lg = true.
+Proof.
+  intros lg H. pose proof e10_sweep as S. rewrite forallb_forall in S. apply S.
+  unfold lg_range. apply in_map_iff. exists (Z.to_nat (lg + 1075)). split; [lia|].
+  apply in_seq. lia.
+Qed.
+
+Lemma qpow_split10 : forall x, (p10 x * inject_Z (10 ^ Z.max (- x) 0) == inject_Z (10 ^ Z.max x 0))%Q.
+Proof.
+  intros x. destruct (Z_le_gt_dec 0 x).
+  - replace (Z.max (- x) 0) with 0 by lia. replace (Z.max x 0) with x by lia.
+    rewrite <- (p10_inject x) by lia. cbn. ring.
+  - replace (Z.max (- x) 0) with (- x) by lia. replace (Z.max x 0) with 0 by lia.
+    rewrite <- (p10_inject (- x)) by lia. rewrite p10_inv. reflexivity.
+Qed.
+
+Lemma qpow_split2 : forall x, (p2 x * inject_Z (2 ^ Z.max (- x) 0) == inject_Z (2 ^ Z.max x 0))%Q.
+Proof.
+  intros x. destruct (Z_le_gt_dec 0 x).
+  - replace (Z.max (- x) 0) with 0 by lia. replace (Z.max x 0) with x by lia.
+    rewrite <- (p2_inj x) by lia. cbn. ring.
+  - replace (Z.max (- x) 0) with (- x) by lia. replace (Z.max x 0) with 0 by lia.
+    rewrite <- (p2_inj (- x)) by lia. rewrite p2_inv. reflexivity.
+Qed.
+
+Lemma pow_pos' : forall a k, 0 < a -> (0 < inject_Z (a ^ Z.max k 0))%Q.
+Proof. intros a k H. apply inj_pos. apply Z.pow_pos_nonneg; lia. Qed.
+
+Lemma pow_le_10_2 : forall x y, pow_le 10 x 2 y = true -> (p10 x <= p2 y)%Q.
+Proof.
+  intros x y H. unfold pow_le in H. apply Z.leb_le in H. rewrite Zle_Qle, !inject_Z_mult in H.
+  pose proof (qpow_split10 x) as A. pose proof (qpow_split2 y) as B.
+  pose proof (pow_pos' 10 (- x) ltac:(lia)) as P1. pose proof (pow_pos' 2 (- y) ltac:(lia)) as P2.
+  pose proof (p10_pos x). pose proof (p2_pos y).
+  rewrite <- A, <- B in H.
+  set (u := inject_Z (10 ^ Z.max (- x) 0)) in *. set (v := inject_Z (2 ^ Z.max (- y) 0)) in *.
+  set (a := p10 x) in *. set (b := p2 y) in *.
+  assert (a * (u * v) <= b * (u * v))%Q by (rewrite !Qmult_assoc; nra).
+  assert (0 < u * v)%Q by nra. nra.
+Qed.
+
+Lemma pow_le_2_10 : forall y x, pow_le 2 y 10 x = true -> (p2 y <= p10 x)%Q.
+Proof.
+  intros y x H. unfold pow_le in H. apply Z.leb_le in H. rewrite Zle_Qle, !inject_Z_mult in H.
+  pose proof (qpow_split10 x) as A. pose proof (qpow_split2 y) as B.
+  pose proof (pow_pos' 10 (- x) ltac:(lia)) as P1. pose proof (pow_pos' 2 (- y) ltac:(lia)) as P2.
+  pose proof (p10_pos x). pose proof (p2_pos y).
+  rewrite <- A, <- B in H.
+  set (u := inject_Z (10 ^ Z.max (- x) 0)) in *. set (v := inject_Z (2 ^ Z.max (- y) 0)) in *.
+  set (a := p10 x) in *. set (b := p2 y) in *.
+  assert (b * (u * v) <= a * (u * v))%Q by (rewrite !Qmult_assoc; nra).
+  assert (0 < u * v)%Q by nra. nra.
+Qed.
+
+Section Fuel.
+  Variables n d : Z.
+  Hypothesis Hn : 0 < n.
+  Hypothesis Hd : 0 < d.
+  Variable t : Q.
+  Hypothesis Ht : (t * inject_Z d == inject_Z n)%Q.
+  Hypothesis Hlg : -1075 <= flog2_q n d <= 1024.
+
+  Lemma find_e10_total : exists E, find_e10 8 n d (est_e10 n d) = Some E.
+  Proof.
+    destruct (flog2_q_spec n d Hn Hd t Ht) as [L1 L2].
+    pose proof (e10_ok_range _ Hlg) as OK. unfold e10_ok in OK.
+    unfold est_e10. set (lg := flog2_q n d) in *. set (e := lg * 30103 / 100000) in *.
+    apply andb_true_iff in OK. destruct OK as [O1 O2].
+    apply pow_le_10_2 in O1. apply pow_le_2_10 in O2.
+    assert (Lo : (p10 (e - 1) <= t)%Q) by lra.
+    assert (Hi : (t < p10 (e + 2))%Q) by lra.
+    pose proof (q_lt_pow10_spec n d Hd t Ht e) as Q0.
+    pose proof (q_lt_pow10_spec n d Hd t Ht (e + 1)) as Q1.
+    pose proof (q_lt_pow10_spec n d Hd t Ht (e - 1)) as Qm.
+    pose proof (q_lt_pow10_spec n d Hd t Ht (e + 2)) as Q2.
+    change 8%nat with (S (S 6)). cbn [find_e10].
+    destruct (q_lt_pow10 n d e) eqn:E0.
+    - (* t < 10^e: one step down *)
+      destruct (q_lt_pow10 n d (e - 1)) eqn:Em; [exfalso; lra|].
+      replace (e - 1 + 1) with e by lia. rewrite E0. eauto.
+    - destruct (q_lt_pow10 n d (e + 1)) eqn:E1; [eauto|].
+      replace (e + 1 + 1) with (e + 2) by lia.
+      destruct (q_lt_pow10 n d (e + 2)) eqn:E2; [eauto | exfalso; lra].
+  Qed.
+
+  Lemma sci_digits_total : forall p, exists D E, sci_digits p n d = Some (D, E).
+  Proof.
+    intros p. unfold sci_digits. destruct find_e10_total as [E ->].
+    destruct (scale_round n d (p - E) =? 10 ^ (p + 1)); eauto.
+  Qed.
+End Fuel.
+
+Lemma p2_lt_exp : forall a b, (p2 a < p2 b)%Q -> a < b.
+Proof.
+  intros a b H. destruct (Z_lt_le_dec a b) as [L|L]; [exact L|].
+  pose proof (p2_mono b a L). lra.
+Qed.
+
+(* the binary exponent of a non-zero double *)
+Lemma double_lg_range : forall x, is_double x -> 0 < dman x ->
+  -1075 <= flog2_q (d_num x) (d_den x) <= 1024.
+Proof.
+  intros x (Hm & He & Hf) Pm.
+  destruct (d_frac x) as [Fx Dp]. pose proof (d_num_pos x Pm) as Np.
+  destruct (flog2_q_spec (d_num x) (d_den x) Np Dp (dabs x) Fx) as [L1 L2].
+  set (lg := flog2_q (d_num x) (d_den x)) in *.
+  assert (Lo : (p2 (-1074) <= dabs x)%Q).
+  { unfold dabs. fold (p2 (dexp x)). pose proof (p2_mono (-1074) (dexp x) He). pose proof (p2_pos (dexp x)).
+    assert (1 <= inject_Z (dman x))%Q by (unfold Qle; cbn; lia). nra. }
+  split.
+  - assert (p2 (-1074) < p2 (lg + 1))%Q by lra. apply p2_lt_exp in H. lia.
+  - assert (p2 lg < p2 1024)%Q by lra. apply p2_lt_exp in H. lia.
+Qed.
+
+Lemma sci_digits_double : forall x p, is_double x -> 0 < dman x ->
+  exists D E, sci_digits p (d_num x) (d_den x) = Some (D, E).
+Proof.
+  intros x p Hd Pm. destruct (d_frac x) as [Fx Dp].
+  exact (sci_digits_total (d_num x) (d_den x) (d_num_pos x Pm) Dp (dabs x) Fx (double_lg_range x Hd Pm) p).
+Qed.
+
+Lemma e_parts_total : forall x p, is_double x -> exists me, e_parts p x = Ok me.
+Proof.
+  intros x p Hd. unfold e_parts. destruct (dman x =? 0) eqn:Z0; [eauto|].
+  apply Z.eqb_neq in Z0. assert (Pm : 0 < dman x) by (destruct Hd as ((H & _) & _); lia).
+  destruct (sci_digits_double x p Hd Pm) as (D & E & ->). eauto.
+Qed.
+
+Lemma g_body_total : forall x P0, is_double x -> 0 <= P0 -> exists b, g_body P0 x = Ok b.
+Proof.
+  intros x P0 Hd HP. unfold g_body. destruct (dman x =? 0) eqn:Z0; [eauto|].
+  apply Z.eqb_neq in Z0. assert (Pm : 0 < dman x) by (destruct Hd as ((H & _) & _); lia).
+  set (P := if P0 =? 0 then 1 else P0).
+  assert (P1 : 1 <= P) by (unfold P; destruct (P0 =? 0) eqn:E; [lia | apply Z.eqb_neq in E; lia]).
+  destruct (sci_digits_double x (P - 1) Hd Pm) as (D & E & ->).
+  destruct (andb (-4 <=? E) (E <? P)); [eauto|].
+  pose proof (length_digits_fixed (Z.to_nat P) D) as L.
+  destruct (digits_fixed (Z.to_nat P) D); [cbn in L; lia | eauto].
+Qed.
+
+(* _format_float never fails on a double *)
+Lemma format_float_total : forall reversed f x p, is_double x -> 0 <= p ->
+  exists t, format_float reversed f x p = Ok t.
+Proof.
+  intros reversed f x p Hd Hp. unfold format_float.
+  destruct (negb reversed).
+  - destruct (g_body_total x p Hd Hp) as [b ->]. cbn [bind]. eauto.
+  - destruct (is_scientific f).
+    + destruct (e_parts_total x p Hd) as [[mant E] ->]. cbn [bind]. eauto.
+    + destruct (as_int f).
+      * destruct (g_body_total x (Z.max p 6) Hd ltac:(lia)) as [b ->]. cbn [bind]. eauto.
+      * eauto.
+Qed.
+
+(* the only thing that can go wrong in the test of the loop is float() refusing the text *)
+Lemma reads_back_errors : forall temp x e, reads_back temp x = Err e -> e = EValue.
+Proof.
+  intros temp x e H. unfold reads_back, fortran_float in H.
+  destruct (fortran_scan (strip temp)); [|inversion H; reflexivity].
+  destruct (mk_round _ _ _); discriminate.
+Qed.
+
+Lemma prec_loop_errors : forall reversed f x, is_double x -> forall fuel p t0 e, 0 <= p ->
+  prec_loop reversed f x fuel p t0 = Err e -> e = EValue.
+Proof.
+  intros reversed f x Hd. induction fuel as [|k IH]; intros p t0 e Hp H; [discriminate|].
+  cbn [prec_loop] in H. destruct (reads_back t0 x) as [[|]|e'] eqn:R; cbn [bind] in H.
+  - discriminate.
+  - destruct (format_float_total reversed f x (p + 1) Hd ltac:(lia)) as [t1 F]. rewrite F in H. cbn [bind] in H.
+    apply (IH (p + 1) t1 e); [lia | exact H].
+  - inversion H; subst. apply (reads_back_errors _ _ _ R).
+Qed.
+
+(* the float branch of format() on a double: a text, or the ValueError of float(); never out of fuel *)
+Lemma float_text_errors : forall reversed f x e, is_double x -> 0 <= precision f ->
+  float_text reversed f x = Err e -> e = EValue.
+Proof.
+  intros reversed f x e Hd Hp H. unfold float_text in H.
+  destruct (format_float_total reversed f x (precision f) Hd Hp) as [t0 F]. rewrite F in H. cbn [bind] in H.
+  destruct (prec_loop reversed f x (Z.to_nat (17 - precision f)) (precision f) t0) as [temp|e'] eqn:L; cbn [bind] in H.
+  - destruct (reads_back temp x) as [[|]|e''] eqn:R; cbn [bind] in H.
+    + discriminate.
+    + unfold fallback_text in H. destruct (g_body_total x 17 Hd ltac:(lia)) as [b G]. rewrite G in H. discriminate.
+    + inversion H; subst. apply (reads_back_errors _ _ _ R).
+  - inversion H; subst. apply (prec_loop_errors reversed f x Hd _ _ _ _ Hp L).
+Qed.
+
+(* ------------------------------------------------------------------------------------------ *)
+(* 17. format() never raises on a double: float() accepts every text _format_float produces *)
+
+Definition is_dD (a : ascii) : bool := orb (Ascii.eqb a "d"%char) (Ascii.eqb a "D"%char).
+Fixpoint no_dD (s : string) : bool :=
+  match s with EmptyString => true | String a r => andb (negb (is_dD a)) (no_dD r) end.
+
+Lemma no_dD_app : forall a b, no_dD (a ++ b) = andb (no_dD a) (no_dD b).
+Proof.
+  induction a as [|x a IH]; intros b; [reflexivity|]. cbn [append no_dD]. now rewrite IH, andb_assoc.
+Qed.
+
+Lemma digit_not_dD : forall a, is_digit a = true -> is_dD a = false.
+Proof. intros a H. destruct a as [[] [] [] [] [] [] [] []]; try reflexivity; discriminate. Qed.
+
+Lemma all_digits_no_dD : forall s, all_digits s = true -> no_dD s = true.
+Proof.
+  induction s as [|a s IH]; intros H; [reflexivity|].
+  cbn [all_digits] in H. apply andb_true_iff in H. destruct H as [Ha Hs].
+  cbn [no_dD]. rewrite (digit_not_dD a Ha), (IH Hs). reflexivity.
+Qed.
+
+Lemma no_dD_zeros : forall z, no_dD (zeros z) = true.
+Proof. intros. apply all_digits_no_dD, all_digits_zeros. Qed.
+
+Lemma no_dD_blanks : forall z, no_dD (blanks z) = true.
+Proof. intros z. unfold blanks. induction (Z.to_nat z); [reflexivity | exact IHn]. Qed.
+
+Lemma no_dD_sign_text : forall sopt neg, no_dD (sign_text sopt neg) = true.
+Proof.
+  intros. unfold sign_text. destruct neg; [reflexivity|].
+  destruct (Ascii.eqb sopt "+"); [reflexivity|]. destruct (Ascii.eqb sopt " "); reflexivity.
+Qed.
+
+Lemma no_dD_exp_sign : forall E, no_dD (exp_sign E) = true.
+Proof. intros. unfold exp_sign. destruct (E <? 0); reflexivity. Qed.
+
+Lemma no_dD_show : forall v, no_dD (show_nat_Z v) = true.
+Proof. intros. apply all_digits_no_dD, all_digits_show. Qed.
+
+Lemma no_dD_fixed : forall k D, no_dD (digits_fixed k D) = true.
+Proof. intros. apply all_digits_no_dD, all_digits_fixed. Qed.
+
+Lemma no_dD_exp_digits : forall E, no_dD (exp_digits E) = true.
+Proof. intros. apply all_digits_no_dD. apply (exp_digits_props E). Qed.
+
+Lemma no_dD_mantissa : forall p D, no_dD (mantissa_text p D) = true.
+Proof.
+  intros p D. unfold mantissa_text. pose proof (no_dD_fixed (Z.to_nat (p + 1)) D) as H.
+  destruct (digits_fixed (Z.to_nat (p + 1)) D) as [|a r]; [reflexivity|].
+  cbn [no_dD] in H. apply andb_true_iff in H. destruct H as [Ha Hr].
+  destruct (p =? 0); cbn [no_dD append]; rewrite Ha; cbn; [reflexivity | exact Hr].
+Qed.
+
+Lemma no_dD_rstrip_zeros : forall s, no_dD s = true -> no_dD (rstrip_zeros s) = true.
+Proof.
+  induction s as [|a s IH]; intros H; [reflexivity|].
+  cbn [no_dD] in H. apply andb_true_iff in H. destruct H as [Ha Hs]. cbn [rstrip_zeros].
+  destruct (andb (Ascii.eqb a "0") (String.eqb (rstrip_zeros s) "")); [reflexivity|].
+  cbn [no_dD]. now rewrite Ha, (IH Hs).
+Qed.
+
+Lemma no_dD_with_frac : forall ip frac, no_dD ip = true -> no_dD frac = true -> no_dD (with_frac ip frac) = true.
+Proof.
+  intros ip frac H1 H2. unfold with_frac. pose proof (no_dD_rstrip_zeros frac H2) as H3.
+  destruct (String.eqb (rstrip_zeros frac) ""); [exact H1|].
+  rewrite !no_dD_app, H1, H3. reflexivity.
+Qed.
+
+Lemma no_dD_f_body : forall p x, no_dD (f_body p x) = true.
+Proof.
+  intros. unfold f_body. destruct (p =? 0); [apply no_dD_show|].
+  rewrite !no_dD_app, no_dD_show, no_dD_fixed. reflexivity.
+Qed.
+
+Lemma no_dD_g_body : forall P0 x b, g_body P0 x = Ok b -> no_dD b = true.
+Proof.
+  intros P0 x b H. unfold g_body in H. destruct (dman x =? 0); [inversion H; reflexivity|].
+  destruct (sci_digits _ _ _) as [[D E]|]; [|discriminate].
+  destruct (andb (-4 <=? E) (E <? _)).
+  - inversion H. apply no_dD_with_frac; [apply no_dD_show | apply no_dD_fixed].
+  - pose proof (no_dD_fixed (Z.to_nat (if P0 =? 0 then 1 else P0)) D) as F.
+    destruct (digits_fixed _ D) as [|a r]; [discriminate|]. inversion H.
+    cbn [no_dD] in F. apply andb_true_iff in F. destruct F as [Fa Fr].
+    rewrite no_dD_app. apply andb_true_iff. split.
+    + apply no_dD_with_frac; [cbn [no_dD]; now rewrite Fa | exact Fr].
+    + change ("e" ++ exp_sign E ++ exp_digits E) with (String "e" (exp_sign E ++ exp_digits E)).
+      cbn [no_dD]. change (is_dD "e") with false. cbn [negb andb].
+      rewrite no_dD_app, no_dD_exp_sign, no_dD_exp_digits. reflexivity.
+Qed.
+
+Lemma no_dD_zfill : forall sg b w, no_dD sg = true -> no_dD b = true -> no_dD (zfill sg b w) = true.
+Proof. intros. unfold zfill. rewrite !no_dD_app, H, H0, no_dD_zeros. reflexivity. Qed.
+
+Lemma no_dD_format_float : forall reversed f x p t,
+  (divider f = "" \/ divider f = "e" \/ divider f = "E") ->
+  format_float reversed f x p = Ok t -> no_dD t = true.
+Proof.
+  intros reversed f x p t Hdiv H. unfold format_float in H.
+  destruct (negb reversed).
+  - destruct (g_body p x) as [b|] eqn:G; [|discriminate]. inversion H.
+    apply no_dD_zfill; [apply no_dD_sign_text | exact (no_dD_g_body _ _ _ G)].
+  - destruct (is_scientific f).
+    + destruct (e_parts p x) as [[mant E]|] eqn:EP; [|discriminate]. inversion H.
+      assert (Hm : no_dD mant = true).
+      { unfold e_parts in EP. destruct (dman x =? 0); [inversion EP; apply no_dD_mantissa|].
+        destruct (sci_digits _ _ _) as [[D E']|]; [|discriminate]. inversion EP. apply no_dD_mantissa. }
+      assert (Hd : no_dD (divider f) = true) by (destruct Hdiv as [->|[->| ->]]; reflexivity).
+      unfold ljust, zfill.
+      rewrite !no_dD_app, no_dD_sign_text, !no_dD_zeros, Hm, Hd, no_dD_exp_sign, no_dD_show, no_dD_blanks.
+      reflexivity.
+    + destruct (as_int f).
+      * destruct (g_body (Z.max p 6) x) as [b|] eqn:G; [|discriminate]. inversion H.
+        apply no_dD_zfill; [apply no_dD_sign_text | exact (no_dD_g_body _ _ _ G)].
+      * inversion H. apply no_dD_zfill; [apply no_dD_sign_text | apply no_dD_f_body].
+Qed.
+
+(* without a 'd' or 'D' in the text, the Fortran reader and Python's float() scan it alike *)
+Lemma scan_eEdD_eE : forall s sc, no_dD s = true ->
+  scan_number letter_eEdD s = Some sc -> scan_number letter_eE s = Some sc.
+Proof.
+  intros s sc ND H. unfold scan_number in *.
+  destruct (take_sign s) as [sg r0] eqn:TS. destruct (take_sign_spec _ _ _ TS) as [Es _].
+  destruct (span_digits r0) as [d1 r1] eqn:S1. destruct (span_digits_spec _ _ _ S1) as [E1 _].
+  assert (X : exists pre, r1 = pre ++
+     snd (match r1 with
+          | String "."%char t => let (d2, r2) := span_digits t in (true, d2, r2)
+          | _ => (false, "", r1)
+          end)).
+  { destruct r1 as [|c t]; [exists ""; reflexivity|].
+    destruct (Ascii.eqb c ".") eqn:Ec.
+    - apply Ascii.eqb_eq in Ec. subst c. destruct (span_digits t) as [d2 r2] eqn:S2.
+      destruct (span_digits_spec _ _ _ S2) as [E2 _]. exists ("." ++ d2). cbn. now rewrite E2.
+    - exists "". destruct c as [[] [] [] [] [] [] [] []]; try reflexivity. discriminate. }
+  destruct (match r1 with
+            | String "."%char t => let (d2, r2) := span_digits t in (true, d2, r2)
+            | _ => (false, "", r1)
+            end) as [[dt d2] r2].
+  destruct X as (pre & Er1). cbn [snd] in Er1.
+  destruct (andb (String.eqb d1 "") (String.eqb d2 "")); [discriminate|].
+  destruct r2 as [|a t]; [exact H|].
+  assert (Na : is_dD a = false).
+  { rewrite Es, E1, Er1, !no_dD_app in ND.
+    apply andb_true_iff in ND; destruct ND as [_ ND].
+    apply andb_true_iff in ND; destruct ND as [_ ND].
+    apply andb_true_iff in ND; destruct ND as [_ ND].
+    cbn [no_dD] in ND. apply andb_true_iff in ND. destruct ND as [ND _]. now apply negb_true_iff in ND. }
+  assert (Eq : letter_eEdD a = letter_eE a).
+  { unfold letter_eEdD. fold (is_dD a). rewrite Na. apply orb_false_r. }
+  rewrite <- Eq. exact H.
+Qed.
+
+Lemma rstrip_no_stop : forall s, no_stop s = true -> rstrip_ws s = s.
+Proof.
+  induction s as [|a s IH]; intros H; [reflexivity|].
+  cbn [no_stop] in H. apply andb_true_iff in H. destruct H as [Ha Hs]. apply negb_true_iff in Ha.
+  cbn [rstrip_ws]. rewrite (IH Hs), (stop_not_ws a Ha). reflexivity.
+Qed.
+
+Lemma strip_drop_blank : forall t, drop_blank t <> "" -> no_stop (drop_blank t) = true ->
+  strip t = drop_blank t.
+Proof.
+  intros t N W. unfold strip.
+  assert (L : lstrip_ws t = drop_blank t).
+  { destruct t as [|a t']; [reflexivity|]. destruct (Ascii.eqb a " ") eqn:E.
+    - apply Ascii.eqb_eq in E. subst a. cbn [drop_blank] in *. cbn [lstrip_ws].
+      change (is_ws " ") with true. cbn iota. apply lstrip_no_stop; assumption.
+    - assert (D : drop_blank (String a t') = String a t').
+      { unfold drop_blank. destruct a as [[] [] [] [] [] [] [] []]; try reflexivity. discriminate. }
+      rewrite D in *. apply lstrip_no_stop; assumption. }
+  rewrite L. apply rstrip_no_stop. exact W.
+Qed.
+
+Lemma no_dD_drop_blank : forall t, no_dD t = true -> no_dD (drop_blank t) = true.
+Proof.
+  intros [|a t] H; [reflexivity|]. unfold drop_blank.
+  destruct a as [[] [] [] [] [] [] [] []]; exact H.
+Qed.
+
+(* a text the Fortran reader reads and that has no d/D is a text the loop's test can judge *)
+Lemma reads_back_total : forall temp x r,
+  read_number (drop_blank temp) = Some r -> no_dD temp = true -> exists b, reads_back temp x = Ok b.
+Proof.
+  intros temp x r R ND. destruct (read_no_stop _ _ R) as [W N].
+  unfold reads_back, fortran_float, fortran_scan. rewrite (strip_drop_blank temp N W).
+  unfold read_number in R. destruct (scan_number letter_eEdD (drop_blank temp)) as [sc|] eqn:S; [|discriminate].
+  rewrite (scan_eEdD_eE _ sc (no_dD_drop_blank _ ND) S).
+  destruct (mk_round _ _ _); eauto.
+Qed.
+
+(* "%g" of zero *)
+Lemma g_zero_read : forall sopt neg z,
+  read_number (drop_blank (sign_text sopt neg ++ zeros z ++ "0")) = Some (neg, 0, 0).
+Proof.
+  intros sopt neg z.
+  destruct (zeros_digit_head z "0" "0"%char "" eq_refl eq_refl) as (c' & rest' & Ez & Hc').
+  destruct (drop_blank_signed sopt neg _ c' rest' Ez Hc') as (Ed & Hsg & Hneg).
+  rewrite Ed.
+  assert (Ad : all_digits (zeros z ++ "0") = true) by (rewrite all_digits_app, all_digits_zeros; reflexivity).
+  assert (Nd : zeros z ++ "0" <> "") by (rewrite Ez; discriminate).
+  unfold sign_str. rewrite (read_int_text (read_sign sopt neg) _ Hsg Ad Nd). rewrite Hneg.
+  rewrite digits_val_zeros_app. reflexivity.
+Qed.
+
+Lemma g_text_read : forall P0 x b sopt z, 0 <= P0 -> 0 <= dman x -> g_body P0 x = Ok b ->
+  exists r, read_number (drop_blank (sign_text sopt (dneg x) ++ zeros z ++ b)) = Some r.
+Proof.
+  intros P0 x b sopt z HP Hm G. destruct (Z.eq_dec (dman x) 0) as [Z0|NZ].
+  - unfold g_body in G. rewrite Z0 in G. cbn in G. inversion G. eexists. apply g_zero_read.
+  - destruct (g_body_read P0 x b sopt z HP ltac:(lia) G) as (D & E & M & k & _ & R & _). eauto.
+Qed.
+
+(* every text of _format_float is a number the Fortran reader reads, without d/D *)
+Lemma format_float_readable : forall reversed f x p t,
+  fmt_ok f -> 0 <= p -> 0 <= dman x ->
+  format_float reversed f x p = Ok t ->
+  (exists r, read_number (drop_blank t) = Some r) /\ no_dD t = true.
+Proof.
+  intros reversed f x p t (Hel & Hdiv & _) Hp Hm H. split; [|exact (no_dD_format_float _ _ _ _ _ Hdiv H)].
+  destruct reversed.
+  - destruct (is_scientific f) eqn:Sc.
+    + destruct (sci_branch_read f x p t Sc Hp Hel Hdiv Hm H) as (D & E & R & _). eauto.
+    + destruct (as_int f) eqn:Ai.
+      * unfold format_float in H. cbn [negb] in H. rewrite Sc, Ai in H.
+        destruct (g_body (Z.max p 6) x) as [b|] eqn:G; [|discriminate]. inversion H. unfold zfill.
+        apply (g_text_read (Z.max p 6) x b); [lia | exact Hm | exact G].
+      * destruct (fixed_branch_error f x p t Sc Ai Hp Hm H) as (r & R & _). eauto.
+  - unfold format_float in H. cbn [negb] in H.
+    destruct (g_body p x) as [b|] eqn:G; [|discriminate]. inversion H. unfold zfill.
+    apply (g_text_read p x b); [exact Hp | exact Hm | exact G].
+Qed.
+
+Lemma prec_loop_total : forall reversed f x, is_double x -> fmt_ok f -> forall fuel p t0, 0 <= p ->
+  format_float reversed f x p = Ok t0 ->
+  exists temp q, prec_loop reversed f x fuel p t0 = Ok temp /\ p <= q /\ format_float reversed f x q = Ok temp.
+Proof.
+  intros reversed f x Hd Hf. assert (Hm : 0 <= dman x) by (destruct Hd as ((H & _) & _); exact H).
+  induction fuel as [|k IH]; intros p t0 Hp F.
+  - exists t0, p. cbn. repeat split; [lia | exact F].
+  - cbn [prec_loop]. destruct (format_float_readable _ _ _ _ _ Hf Hp Hm F) as [[r R] ND].
+    destruct (reads_back_total t0 x r R ND) as [[|] ->]; cbn [bind].
+    + exists t0, p. repeat split; [lia | exact F].
+    + destruct (format_float_total reversed f x (p + 1) Hd ltac:(lia)) as [t1 F1]. rewrite F1. cbn [bind].
+      destruct (IH (p + 1) t1 ltac:(lia) F1) as (temp & q & L & Q1 & Q2).
+      exists temp, q. repeat split; [exact L | lia | exact Q2].
+Qed.
+
+Lemma float_text_total : forall reversed f x, is_double x -> fmt_ok f ->
+  exists s, float_text reversed f x = Ok s.
+Proof.
+  intros reversed f x Hd Hf. assert (Hm : 0 <= dman x) by (destruct Hd as ((H & _) & _); exact H).
+  pose proof Hf as (_ & _ & Hp).
+  unfold float_text.
+  destruct (format_float_total reversed f x (precision f) Hd Hp) as [t0 F]. rewrite F. cbn [bind].
+  destruct (prec_loop_total reversed f x Hd Hf (Z.to_nat (17 - precision f)) (precision f) t0 Hp F)
+    as (temp & q & L & Q1 & Q2). rewrite L. cbn [bind].
+  assert (Hq : 0 <= q) by lia.
+  destruct (format_float_readable _ _ _ _ _ Hf Hq Hm Q2) as [[r R] ND].
+  destruct (reads_back_total temp x r R ND) as [[|] ->]; cbn [bind]; [eauto|].
+  unfold fallback_text. destruct (g_body_total x 17 Hd ltac:(lia)) as [b ->]. cbn [bind]. eauto.
+Qed.
+
+(* float(round(x)) does not overflow *)
+Lemma round_to_dbl_total : forall x, is_double x -> exists a, to_dbl (VInt (py_round (VFlt x))) = Some a.
+Proof.
+  intros x (Hm & He & Hf). cbn [to_dbl].
+  set (n := py_round (VFlt x)).
+  destruct (Z.eq_dec n 0) as [N0|NZ].
+  - rewrite N0. cbn. eauto.
+  - (* |n| is itself a double below 2^1024 *)
+    assert (A : exists mx ex, 0 <= mx < 2 ^ 53 /\ -1074 <= ex /\
+                (inject_Z (Z.abs n) == inject_Z mx * p2 ex)%Q /\ (inject_Z mx * p2 ex < p2 1024)%Q).
+    { unfold n, py_round. set (a := if 0 <=? dexp x then dman x * 2 ^ dexp x else rhe (dman x) (2 ^ (- dexp x))).
+      assert (Ea : Z.abs (if dneg x then - a else a) = Z.abs a) by (destruct (dneg x); lia).
+      rewrite Ea. unfold a. destruct (0 <=? dexp x) eqn:E.
+      - apply Z.leb_le in E. exists (dman x), (dexp x). split; [exact Hm|]. split; [exact He|].
+        assert (P : 0 <= dman x * 2 ^ dexp x) by (apply Z.mul_nonneg_nonneg; [lia | apply Z.pow_nonneg; lia]).
+        rewrite Z.abs_eq by exact P. rewrite inject_Z_mult, <- (p2_inj _ E). split; [reflexivity | exact Hf].
+      - apply Z.leb_gt in E.
+        assert (Pb : 0 < 2 ^ (- dexp x)) by (apply Z.pow_pos_nonneg; lia).
+        pose proof (rhe_nonneg (dman x) (2 ^ (- dexp x)) ltac:(lia) Pb) as R0.
+        pose proof (rhe_bound (dman x) (2 ^ (- dexp x)) Pb) as RB.
+        assert (R1 : rhe (dman x) (2 ^ (- dexp x)) <= 2 ^ 52).
+        { assert (2 <= 2 ^ (- dexp x)) by (change 2 with (2 ^ 1) at 1; apply Z.pow_le_mono_r; lia).
+          change (2 ^ 53) with 9007199254740992 in Hm. change (2 ^ 52) with 4503599627370496. nia. }
+        rewrite Z.abs_eq by exact R0.
+        exists (rhe (dman x) (2 ^ (- dexp x))), 0. change (2 ^ 52) with 4503599627370496 in R1.
+        change (2 ^ 53) with 9007199254740992.
+        split; [lia|]. split; [lia|]. change (p2 0) with 1%Q. split; [ring|].
+        rewrite Qmult_1_r. apply Qle_lt_trans with (inject_Z 4503599627370496).
+        + rewrite <- Zle_Qle. exact R1.
+        + rewrite (p2_inj 1024) by lia. rewrite <- Zlt_Qlt. reflexivity. }
+    destruct A as (mx & ex & Hmx & Hex & Eq & Lt).
+    assert (Np : 0 < Z.abs n) by lia.
+    unfold mk_round, round_dbl. assert (Nz : (Z.abs n =? 0) = false) by (apply Z.eqb_neq; lia). rewrite Nz.
+    destruct (round_core (Z.abs n) 1) as [m e] eqn:RC.
+    assert (Fr : (inject_Z (Z.abs n) * inject_Z 1 == inject_Z (Z.abs n))%Q) by ring.
+    assert (Cl : (Qabs (inject_Z (Z.abs n) - inject_Z mx * p2 ex) <= delta17 * (inject_Z mx * p2 ex))%Q).
+    { rewrite Eq. setoid_replace (inject_Z mx * p2 ex - inject_Z mx * p2 ex)%Q with 0%Q by ring.
+      cbn [Qabs]. change (Qabs 0) with 0%Q. rewrite <- Eq.
+      apply Qmult_le_0_compat; [unfold delta17; cbn; unfold Qle; cbn; lia | unfold Qle; cbn; lia]. }
+    pose proof (round_near_double (Z.abs n) 1 Np ltac:(lia) (inject_Z (Z.abs n)) Fr m e mx ex RC Hmx Hex Cl) as V.
+    assert (NoOv : andb (0 <=? e) (2 ^ 1024 <=? m * 2 ^ e) = false).
+    { destruct (0 <=? e) eqn:E0; [|reflexivity]. apply Z.leb_le in E0. cbn [andb]. apply Z.leb_gt.
+      rewrite <- V in Lt. rewrite (p2_inj e E0), (p2_inj 1024) in Lt by lia.
+      rewrite <- inject_Z_mult, <- Zlt_Qlt in Lt. exact Lt. }
+    rewrite NoOv. eauto.
+Qed.
+
+(* format() returns a text for every float node and every double *)
+Theorem float_format_total : forall tok pad np nd x,
+  make_node KFloat tok pad np = Ok nd -> is_double x ->
+  exists s, format (set_value nd (VFlt x)) = Ok s.
+Proof.
+  intros tok pad np nd x MK Hd.
+  destruct (make_node_float_inv tok pad np nd MK) as (Hf & Htok & Hog).
+  set (nd' := set_value nd (VFlt x)).
+  assert (Hv : n_value nd' = Some (VFlt x)) by reflexivity.
+  assert (Hf' : n_isfloat nd' = true) by exact Hf.
+  assert (Hog' : n_og nd' = n_og nd) by reflexivity.
+  unfold format.
+  assert (VC : exists ch, value_changed nd' = Ok ch).
+  { unfold value_changed. rewrite Hv, Hog', Hf'.
+    destruct Hog as [[_ Ho]|(t & xo & _ & _ & Ho)]; rewrite Ho; cbn [to_dbl]; eauto. }
+  destruct VC as [ch ->]. cbn [bind]. destruct ch; cbn [negb]; [|eauto].
+  rewrite Hv.
+  assert (FO : exists reversed f, (match reverse_formatting nd' with Some f => (true, f) | None => (false, default_fmt) end)
+                                  = (reversed, f) /\ fmt_ok f).
+  { destruct (reverse_formatting nd') as [f|] eqn:RF.
+    - exists true, f. split; [reflexivity | exact (reverse_formatting_ok nd' f RF)].
+    - exists false, default_fmt. split; [reflexivity | exact default_fmt_ok]. }
+  destruct FO as (reversed & f & -> & Fok).
+  assert (RT : exists temp, render_temp nd' reversed f (VFlt x) = Ok temp).
+  { unfold render_temp, can_float_to_int. rewrite Hf'. cbn [andb].
+    destruct (as_int f); cbn [negb bind].
+    - destruct (round_to_dbl_total x Hd) as [a ->]. cbn [to_dbl bind negb orb].
+      destruct (isclose a x); [eauto | exact (float_text_total reversed f x Hd Fok)].
+    - cbn [orb to_dbl]. exact (float_text_total reversed f x Hd Fok). }
+  destruct RT as [temp ->]. cbn [bind]. eauto.
+Qed.
+
+(* the float theorem without "if format() returns a text" *)
+Theorem float_node_close_total : forall tok pad np nd x,
+  make_node KFloat tok pad np = Ok nd ->
+  is_double x ->
+  followed_ok (pad_nodes (set_value nd (VFlt x))) ->
+  exists s y, format (set_value nd (VFlt x)) = Ok s /\ reads_as s y /\ isclose y x = true.
+Proof.
+  intros tok pad np nd x MK Hd FO.
+  destruct (float_format_total tok pad np nd x MK Hd) as [s H].
+  destruct (float_node_close tok pad np nd x s MK Hd FO H) as (y & R & C).
+  exists s, y. auto.
+Qed.
